@@ -29,6 +29,17 @@ def modelledOverrides : List (String × String) :=
 /-- Every override found in the source on this run is modelled, and nothing else is. -/
 theorem overrides_all_modelled : Generated.MLOverrides.overrides = modelledOverrides := by decide
 
+/-- The classes known to define `propagate_values`: the base (`Node`: nothing), `StandardNode` (runs
+    the single node through the backend, never a node with subgraphs), `Constant` (its attribute),
+    `_Initializer` (its value), `_Inline` (the inlined model, not through control flow). A propagated
+    value enters reported shapes through ONNX's data propagation, so any other definition is a new way
+    for a reported type to depend on a value; the value-dependent oracle covers exactly these. -/
+def knownValueOverrides : List (String × String) :=
+  [("_inline", "_Inline"), ("_internal_op", "_Initializer"), ("_node", "Node"), ("_standard", "StandardNode"),
+   ("opset.ai.onnx.v17", "_Constant"), ("opset.ai.onnx.v19", "_Constant"), ("opset.ai.onnx.v21", "_Constant")]
+
+theorem value_overrides_all_known : Generated.MLOverrides.valueOverrides = knownValueOverrides := by decide
+
 /-! ## ai.onnx.ml operators -/
 
 theorem binarizer_sound (x : ITy) (v : RtVal) (outs : List ITy) (w : List RtVal)
@@ -617,6 +628,130 @@ theorem loop_scan_zero_sound (w : RtVal) (t : Ty) (h : emptyScanOk w t = true) :
     · cases n with
       | zero => simpa [scanTy, dimsOk] using h.2
       | succ m => simp at h
+
+/-! ### Scan outputs and the trip count (data-dependent termination)
+
+A constant trip count `M` bounds the number of stacked rows but does not determine it: the body's
+returned condition ends the loop early. So "leading dim = M" (a refinement of the reported scan type
+by a propagated trip count) is sound exactly for bodies that never break. -/
+
+/-- The number of iterations (= rows of every scan output) never exceeds the trip count. -/
+theorem loopRun_rows_le (body : Body) : ∀ (M i : Nat) (c : Bool) (vs fin : List RtVal)
+    (scs : List (List RtVal)), loopRun body M i c vs = some (fin, scs) → scs.length ≤ M := by
+  intro M
+  induction M with
+  | zero =>
+    intro i c vs fin scs h
+    simp only [loopRun, Option.some.injEq, Prod.mk.injEq] at h
+    rw [← h.2]; simp
+  | succ m ih =>
+    intro i c vs fin scs h
+    cases c with
+    | false =>
+      simp only [loopRun, Option.some.injEq, Prod.mk.injEq] at h
+      rw [← h.2]; simp
+    | true =>
+      simp only [loopRun] at h
+      split at h
+      · simp at h
+      · rename_i c' vs' sc hb
+        split at h
+        · simp at h
+        · rename_i fin' scs' hr
+          simp only [Option.some.injEq, Prod.mk.injEq] at h
+          have := ih (i + 1) c' vs' fin' scs' hr
+          rw [← h.2]; simp only [List.length_cons]; omega
+
+/-- With `cond` omitted (= true) and a body that never returns a false condition the loop runs exactly
+    `M` times. -/
+theorem loopRun_rows_eq_of_never_breaks (body : Body)
+    (hnb : ∀ i vs c vs' sc, body i vs = some (c, vs', sc) → c = true) :
+    ∀ (M i : Nat) (vs fin : List RtVal) (scs : List (List RtVal)),
+      loopRun body M i true vs = some (fin, scs) → scs.length = M := by
+  intro M
+  induction M with
+  | zero =>
+    intro i vs fin scs h
+    simp only [loopRun, Option.some.injEq, Prod.mk.injEq] at h
+    rw [← h.2]; simp
+  | succ m ih =>
+    intro i vs fin scs h
+    simp only [loopRun] at h
+    split at h
+    · simp at h
+    · rename_i c' vs' sc hb
+      have hc : c' = true := hnb i vs c' vs' sc hb
+      subst hc
+      split at h
+      · simp at h
+      · rename_i fin' scs' hr
+        simp only [Option.some.injEq, Prod.mk.injEq] at h
+        have := ih (i + 1) vs' fin' scs' hr
+        rw [← h.2]; simp only [List.length_cons]; omega
+
+/-- The leading dim of a stacked scan output is the number of stacked slices. -/
+theorem stackScan_rows (l : List RtVal) (w : RtVal) (h : stackScan l = some w) :
+    ∃ r, w.s = l.length :: r := by
+  cases l with
+  | nil => simp [stackScan] at h
+  | cons v vs =>
+    simp only [stackScan] at h
+    split at h
+    · simp only [Option.some.injEq] at h; subst h; exact ⟨v.s, by simp⟩
+    · simp at h
+
+theorem column_length_le (scs : List (List RtVal)) (j : Nat) : (column scs j).length ≤ scs.length := by
+  unfold column; exact List.length_filterMap_le _ _
+
+/-- Every scan output of every run has at most `M` rows (whatever the body, the initial condition and
+    the carried values do). -/
+theorem loop_scan_rows_le_tripcount (body : Body) (M : Nat) (c0 : Bool) (v0 fin : List RtVal)
+    (scs : List (List RtVal)) (j : Nat) (w : RtVal)
+    (hrun : loopRun body M 0 c0 v0 = some (fin, scs)) (hs : stackScan (column scs j) = some w) :
+    ∃ k r, w.s = k :: r ∧ k ≤ M := by
+  obtain ⟨r, hr⟩ := stackScan_rows _ _ hs
+  exact ⟨_, r, hr, Nat.le_trans (column_length_le scs j) (loopRun_rows_le body M 0 c0 v0 fin scs hrun)⟩
+
+/-- The scan type refined by a constant trip count: leading dim `M` instead of unknown. -/
+def scanTyM (m : Nat) (t : Ty) : Ty := ⟨t.e, t.s.map (Dim.const m :: ·)⟩
+
+/-- A body that stops after its second iteration (`i + 1 < 2`), each iteration emitting one `i64[1]`
+    slice. -/
+def breakAt2 : Body := fun i vs => some (decide (i + 1 < 2), vs, [⟨.i64, [1]⟩])
+
+/-- **Refutation of "scan rows = constant trip count"**: `M = 4`, `cond` omitted, the body breaks after
+    two iterations: the scan output has 2 rows, so it does not conform to the type refined by the
+    trip count, while it does conform to the type spox reports (unknown leading dim). This is the run
+    the termination-Loop oracle replays on the real code. -/
+theorem loop_scan_tripcount_counterexample :
+    ∃ fin scs w, loopRun breakAt2 4 0 true [⟨.f32, [3]⟩] = some (fin, scs) ∧
+      stackScan (column scs 0) = some w ∧
+      conforms w (some (scanTyM 4 ⟨.i64, some [.const 1]⟩)) = false ∧
+      conforms w (some (scanTy ⟨.i64, some [.const 1]⟩)) = true :=
+  ⟨[⟨.f32, [3]⟩], [[⟨.i64, [1]⟩], [⟨.i64, [1]⟩]], ⟨.i64, [2, 1]⟩, by decide, by decide, by decide, by decide⟩
+
+/-- What does hold for the refined type: if the body never breaks and `cond` is omitted, a stacked
+    column with one slice per iteration has exactly `M` rows and conforms to the refined type. -/
+theorem loop_scan_tripcount_sound_partial (body : Body)
+    (hnb : ∀ i vs c vs' sc, body i vs = some (c, vs', sc) → c = true)
+    (M : Nat) (v0 fin : List RtVal) (scs : List (List RtVal)) (j : Nat) (t : Ty) (w : RtVal)
+    (hrun : loopRun body M 0 true v0 = some (fin, scs))
+    (hfull : (column scs j).length = scs.length)
+    (hs : stackScan (column scs j) = some w) (hc : conforms w (some (scanTy t)) = true) :
+    conforms w (some (scanTyM M t)) = true := by
+  obtain ⟨r, hr⟩ := stackScan_rows _ _ hs
+  have hM : (column scs j).length = M := by
+    rw [hfull]; exact loopRun_rows_eq_of_never_breaks body hnb M 0 v0 fin scs hrun
+  rw [hM] at hr
+  obtain ⟨we, ws⟩ := w
+  simp only at hr; subst hr
+  rcases t with ⟨e, _ | ds⟩
+  · simpa [conforms, scanTy, scanTyM] using hc
+  · simp only [conforms, scanTy, scanTyM, Option.map_some, dimsOk, Bool.and_eq_true] at hc ⊢
+    refine ⟨hc.1, ?_, hc.2.2⟩
+    simp [dimOk]
+
+example : loopRun breakAt2 4 0 true [⟨.f32, [3]⟩] = some ([⟨.f32, [3]⟩], [[⟨.i64, [1]⟩], [⟨.i64, [1]⟩]]) := by decide
 
 /-- No modelled routine turns a non-tensor input into a tensor claim: it raises, or (Binarizer,
     Normalizer) hands the non-tensor type through — for which no runtime value exists. -/
